@@ -157,3 +157,27 @@ PROPS["C14"] = {
          "checks": {"quick": 6000, "thorough": 80000}, "shards": {"quick": 4, "thorough": 16}},
     ],
 }
+
+PROPS["C16"] = {
+    "level": "exploration",
+    "rule": ("(a) sequences of the atomic operations Init/Complete/Await/Clear/Cancel over 2 names and 2 waiters, ALL sequences of a bounded length (4 quick, 6 thorough; a waiter's context signals the driver when Await reaches its select, so every operation is linearised) and random sequences up to length 30 over 3 names, "
+             "against a sequential slot model; (b) all orders of builder events (11 kinds incl. build) of bounded length, and 2-4 goroutines adding events with drawn yield points and GOMAXPROCS; "
+             "(c) TracingRoundTripper with scripted transports where response error, body error, early close and cancellation race. Oracle: waiter gets exactly the first completion of its slot, no-ops have no effect, immediate failure on cleared/unknown names, cancel returns the context error, "
+             "exactly one Complete per named operation that reached a finishing event (zero otherwise), delivered events preserve per-goroutine order, end with the finishing event and never grow afterwards. "
+             "Non-trivial: sequence with Complete-before-Await or Await-before-Complete AND a Clear or duplicate Complete; builder/round-trip cases with >=2 racing finishing events."),
+    "assumptions": ["Init of a name that is initialised and not cleared is outside the domain (the runner never does it)",
+                    "a waiter waits for one name at a time",
+                    "data races are only visible in the thorough tier, which builds with -race"],
+    "units": [
+        {"name": "C16TracerEnum", "pkg": TR, "test": "TestVerifC16TracerEnum", "kind": "enum", "race": {"quick": False, "thorough": False},
+         "shards": {"quick": 8, "thorough": 16}, "env_tier": {"quick": {"VERIF_C16_MAXLEN": 5}, "thorough": {"VERIF_C16_MAXLEN": 6}}},
+        {"name": "C16TracerRandom", "pkg": TR, "test": "TestVerifC16TracerRandom", "kind": "rapid", "race": {"quick": False, "thorough": True},
+         "checks": {"quick": 5000, "thorough": 60000}, "shards": {"quick": 2, "thorough": 8}},
+        {"name": "C16BuilderEnum", "pkg": TR, "test": "TestVerifC16BuilderEnum", "kind": "enum",
+         "shards": {"quick": 4, "thorough": 16}, "env_tier": {"quick": {"VERIF_C16_BUILDER_MAXLEN": 5}, "thorough": {"VERIF_C16_BUILDER_MAXLEN": 6}}},
+        {"name": "C16BuilderConcurrent", "pkg": TR, "test": "TestVerifC16BuilderConcurrent", "kind": "rapid", "race": {"quick": False, "thorough": True},
+         "checks": {"quick": 3000, "thorough": 20000}, "shards": {"quick": 2, "thorough": 16}},
+        {"name": "C16RoundTripRace", "pkg": TR, "test": "TestVerifC16RoundTripRace", "kind": "rapid", "race": {"quick": False, "thorough": True},
+         "checks": {"quick": 1500, "thorough": 10000}, "shards": {"quick": 2, "thorough": 16}},
+    ],
+}
